@@ -212,6 +212,38 @@ func main() {
 			}
 		}
 
+		// (c'') every single-byte replacement, deletion and doubling of valid
+		// inputs of every shape.
+		shm := sh()
+		for _, base := range []string{
+			"1.2.3.4", "255.255.255.255", "0.0.0.0", "10.20.30.40",
+			"::", "::1", "1::", "1:2:3:4:5:6:7:8", "a:b:c:d:e:f:0:9", "A:B:C:D:E:F:0:9", "fe80::1%eth0", "1::8%z",
+			"::ffff:1.2.3.4", "1:2:3:4:5:6:1.2.3.4", "1:2::7:8", "::2:3:4:5:6:7:8", "abcd:ef01:2345:6789:abcd:ef01:2345:6789",
+			"ffff:ffff:ffff:ffff:ffff:ffff:255.255.255.255",
+		} {
+			gen.ByteMutations(base, func(m string) {
+				if shm.Mine() {
+					other("ip-byte-mutations", ipPair, m)
+				}
+			})
+			for _, w := range []string{base + ":80", "[" + base + "]:65535", "[" + base + "]:0"} {
+				gen.ByteMutations(w, func(m string) {
+					if shm.Mine() {
+						other("ip-byte-mutations", ipPortPair, m)
+					}
+				})
+			}
+		}
+
+		for _, base := range []string{"example.com", "a.b", "a-b.c-d.ef", "xn--e1afmkfd.xn--p1ai", "1a.2b.c3", "A.Example.ORG", "a_b.example", "localhost"} {
+			gen.ByteMutations(base, func(m string) {
+				if shm.Mine() {
+					other("name-byte-mutations", hostPair, m)
+					other("name-byte-mutations", labelPair, m)
+				}
+			})
+		}
+
 		// (d) hostname twins over the name input space.
 		enum.Strings(gen.NameAlphabet, runlib.Pick(c, 4, 5), sh(), func(s string) {
 			other("name-strings", hostPair, s)
